@@ -162,6 +162,11 @@ def _final_pick(prog: Program, res: Result):
     idxname = asg.targets[0].id if asg is not None and isinstance(asg.targets[0], ast.Name) else None
     sel = next((s for s in walk_no_nested(fn) if isinstance(s, ast.Assign) and isinstance(s.value, ast.Subscript) and isinstance(s.value.slice, ast.Name)
                 and s.value.slice.id == idxname and isinstance(s.value.value, ast.Name) and s.lineno > pick.lineno), None)
+    if sel is None and asg is not None:
+        # keys[values.index(excess)] in one expression
+        direct = next((x for x in ast.walk(asg.value) if isinstance(x, ast.Subscript) and x.slice is pick and isinstance(x.value, ast.Name)), None)
+        if direct is not None:
+            sel = ast.Assign(targets=asg.targets, value=direct, lineno=asg.lineno)
     ok = False
     if sel is not None:
         kd = _def_of(fn, sel.value.value.id, sel.lineno)
